@@ -5,7 +5,7 @@ import ast
 
 from ..model import Class, Function
 from ..scope import FuncInfo
-from ..cfg import CFG, must_facts
+from ..cfg import CFG, must_facts, reaching_defs, header_expr
 from ..callgraph import own_walk
 from ..astutil import src, kwarg
 from ..pattern import canon, matches
@@ -24,6 +24,64 @@ FIRST_ORDER = {'delta2tr': 'first-order motion I + skewa(d): approximate by defi
 POSE_CLASSES = {'SO2', 'SE2', 'SO3', 'SE3', 'UnitQuaternion'}
 
 
+_site = []      # stack of original AST nodes locating the expression being judged (for reaching definitions)
+_rdefs = {}
+
+
+def _list_defs(fi, name, site):
+    """values of the definitions of the local list `name` that reach `site`; None when one of them is not a plain assignment"""
+    f = fi.f
+    key = id(f.node)
+    if key not in _rdefs:
+        cfg = CFG(f.node)
+        _rdefs[key] = (cfg, reaching_defs(cfg, f.allparams)[0])
+    cfg, IN = _rdefs[key]
+    node = None
+    for n_ in cfg.nodes:
+        a = getattr(n_, 'ast', None)
+        if a is not None and (a is site or any(y is site for h in header_expr(n_) if h is not None for y in ast.walk(h))):
+            node = n_
+            break
+    if node is None:
+        return None
+    out = []
+    for (nm, d) in IN.get(node.id, frozenset()):
+        if nm != name:
+            continue
+        a = cfg.nodes[d].ast
+        if not (isinstance(a, ast.Assign) and len(a.targets) == 1 and isinstance(a.targets[0], ast.Name)):
+            return None
+        out.append(a)
+    return out
+
+
+def _member_list(fi, it, member_vars, depth):
+    """is `it` a list of member values?  -> (True|False|None, why)"""
+    if (isinstance(it, ast.Name) and it.id in fi.self_names()) or \
+            (isinstance(it, ast.Attribute) and isinstance(it.value, ast.Name) and it.value.id in fi.self_names()
+             and it.attr in ('data', 'A', '_A')):
+        return (True, 'the stored values')
+    if isinstance(it, ast.ListComp):
+        return closed_expr(fi, it, member_vars, depth + 1)
+    if isinstance(it, ast.Name) and _site and it.id not in fi.f.allparams:
+        defs = _list_defs(fi, it.id, _site[-1])
+        if not defs:
+            return (None, 'list ' + it.id)
+        res = None
+        for a in defs:
+            _site.append(a)
+            try:
+                r = _member_list(fi, a.value, member_vars, depth + 1)
+            finally:
+                _site.pop()
+            if r[0] is False:
+                return (False, '%s (the list %s defined at line %d)' % (r[1], it.id, a.lineno))
+            if not r[0]:
+                res = r
+        return res if res is not None else (True, 'every reaching definition of %s holds members' % it.id)
+    return (None, 'list ' + src(it, 30))
+
+
 def closed_expr(fi, e, member_vars, depth=0):
     """-> (True, why) | (False, why) | (None, why)"""
     if depth > 8:
@@ -32,6 +90,12 @@ def closed_expr(fi, e, member_vars, depth=0):
         mv = set(member_vars)
         for g in e.generators:
             it = g.iter
+            if isinstance(it, ast.Name) and it.id not in fi.self_names() and isinstance(g.target, ast.Name):
+                r = _member_list(fi, it, member_vars, depth)
+                if r[0] is False:
+                    return r
+                if r[0]:
+                    mv.add(g.target.id)
             # elements of self / self.data / self.A are members
             if (isinstance(it, ast.Name) and it.id in fi.self_names()) or \
                     (isinstance(it, ast.Attribute) and isinstance(it.value, ast.Name) and it.value.id in fi.self_names()
@@ -167,8 +231,7 @@ def _validated(f, fi, call):
     cfg, facts = _cfgs[key]
     node = None
     for n_ in cfg.nodes:
-        a = getattr(n_, 'ast', None)
-        if a is not None and any(y is call for y in ast.walk(a)):
+        if any(y is call for h in header_expr(n_) if h is not None for y in ast.walk(h)):
             node = n_
             break
     out = set()
@@ -218,7 +281,11 @@ def check_unchecked_sites(run, rule='R15c', only=None, keys=None, raw_only=False
             if not c.args:
                 continue
             e = canon(fi, c.args[0])
-            ok, why = closed_expr(fi, e, _validated(f, fi, c))
+            _site.append(c)
+            try:
+                ok, why = closed_expr(fi, e, _validated(f, fi, c))
+            finally:
+                _site.pop()
             construct = 'unchecked ' + src(c, 70)
             if raw_only:
                 if ok is False and 'raw parameter' in why:
